@@ -15,8 +15,11 @@ import AcVerif.Packed.Model
 import AcVerif.Packed.Vector
 import AcVerif.Pre.Builder
 import AcVerif.Cost
+import AcVerif.CostOverlap
 import AcVerif.Compiler
 import AcVerif.DfaModel
+import AcVerif.DfaIds
+import AcVerif.NfaIds
 import AcVerif.ContigModel
 import AcVerif.DenseModel
 /-!
@@ -183,7 +186,12 @@ def answer (r : Req) (c : Cfg) : String :=
       match r.bytes? "hay", r.nums? "sched" with
       | some data, some sched =>
         let rdr : Reader UInt8 := { data := data, sched := sched, failAt := r.nat? "rfail" }
-        let spare := r.nat? "spare"
+        -- the capacity: an explicit spare room, else the OBSERVED capacity of the real `Buffer::new`
+        -- (`cap=`, Tie C by observation), else the formula with the extracted constants
+        let spare := match r.nat? "spare", r.nat? "cap" with
+          | some sp, _ => some sp
+          | none, some cap => some (cap - max 1 m.A.maxLen)
+          | none, none => none
         match gate false with
         | .error e => s!"{e.name} emptyreads=0"
         | .ok () =>
@@ -295,6 +303,17 @@ def answerCost (r : Req) (c : Cfg) : String :=
     let isDfa := c.kind == "dfa" || c.kind == "tdfa" ||
       (c.kind == "auto" && c.sk != StartKind.both && P.length ≤ K.autoDfaLimit)
     let gate : Except MatchErr Unit := if c.isTop then enforceAnchored c.sk i.anch else .ok ()
+    if r.getD "api" "find" != "find" then
+      -- one overlapping call sequence: the counters of each call (`CostP.ovlCallsCost`)
+      match gate with
+      | .error e => fmtList [e.name]
+      | .ok () =>
+        let pre : Option (Prefilter UInt8) := preC.map (·.findIn)
+        let calls := CostP.ovlCallsCost k Q A g pre i (r.natD "n" 1) OState.start
+        fmtList (calls.map fun
+          | .error e => e.name
+          | .ok c => s!"{c.transitions}/{if isDfa then 0 else c.fails}")
+    else
     match gate with
     | .error e => s!"{e.name} t=0 f=0"
     | .ok () =>
@@ -628,6 +647,41 @@ def answerCertL1c (r : Req) : String :=
         s!"cert-fail contract={if T.contractOk then 1 else 0} fails={if failsOk then 1 else 0} " ++ " | ".intercalate diags
   | _, _ => "bad-request:certl1c"
 
+/-- `certnci`: the same certificate against the id-level transcription of the noncontiguous NFA
+(`buildNfaIds`: `shuffle`d ids, flags by the id ranges of `Special`, stored dense rows) -/
+def answerCertNcIds (r : Req) : String :=
+  match MatchKind.parse (r.getD "mk" "std"), r.list? "pats" with
+  | some k, some P =>
+    match parseTable r k with
+    | none => "bad-request:dump"
+    | some T =>
+      let B := T.toAut
+      let n := T.states.size
+      let fold := r.flag "fold"
+      let N := CNfa.compile k fold P
+      let M := buildNfaIds N T.hasPre
+      let rows := buildDenseIds N (r.natD "dd" 3)
+      let classOf := classOfMarks (marksOf (trieBytes N))
+      let A : Aut Nat UInt8 := M.toAutD classOf rows k P T.hasPre
+      let first := r.flag "first"
+      let modes := r.getD "modes" "01"
+      let res := ([false, true].filter fun a => modes.contains (if a then '1' else '0')).map fun anch =>
+        let f := buildSim A B n anch
+        let ok := certOk A B n anch first f allBytes
+        (anch, ok, if ok then "ok" else certDiag A B n anch first f toString)
+      let f := buildSim A B n false
+      let failsOk := r.getD "failsmode" "" != "model" || (List.range n).all fun b =>
+        match f[b]?, T.states[b]? with
+        | some (some a), some st =>
+          allBytes.all fun c => st.fails.getD c.toNat 0 == (M.nextStateD classOf rows false (M.states.size + 1) a c 0).2
+        | _, _ => true
+      if T.contractOk && failsOk && res.all (·.2.1) then s!"cert-ok states={n} l1cids_states={M.states.size} max_match={M.maxMatchId} max_special={M.maxSpecialId}"
+      else
+        let diags := res.filterMap fun (anch, ok, d) =>
+          if ok then none else some s!"anch={if anch then 1 else 0}:{d}"
+        s!"cert-fail contract={if T.contractOk then 1 else 0} fails={if failsOk then 1 else 0} " ++ " | ".intercalate diags
+  | _, _ => "bad-request:certnci"
+
 /-- `certdfa`: certificate of a dumped DFA against the transcription of the DFA builder
 (L1d) applied to the transcribed compiler's NFA: whole match lists, every supported anchoring. -/
 def answerCertDfa (r : Req) : String :=
@@ -646,18 +700,54 @@ def answerCertDfa (r : Req) : String :=
       let N := CNfa.compile k (r.flag "fold") P
       let D := buildDfa N sk (r.flag "bc")
       let A := D.toAut k P T.hasPre
-      let res := [false, true].map fun anch =>
+      let first := r.flag "first"
+      let modes := r.getD "modes" "01"
+      let res := ([false, true].filter fun a => modes.contains (if a then '1' else '0')).map fun anch =>
         if (A.start anch).isNone && (B.start anch).isNone then (anch, true, "unsupported-by-both")
         else
           let f := buildSim A B n anch
-          let ok := certOk A B n anch false f allBytes
-          (anch, ok, if ok then "ok" else certDiag A B n anch false f toString)
+          let ok := certOk A B n anch first f allBytes
+          (anch, ok, if ok then "ok" else certDiag A B n anch first f toString)
       if res.all (·.2.1) then s!"cert-ok states={n} l1d_states={D.rows.size}"
       else
         let diags := res.filterMap fun (anch, ok, d) =>
           if ok then none else some s!"anch={if anch then 1 else 0}:{d}"
         s!"cert-fail " ++ " | ".intercalate diags
   | _, _ => "bad-request:certdfa"
+
+/-- `certdfai`: the same certificate against the id-level transcription (`buildDfaIds`: shuffled ids
+premultiplied by the stride, flat transition table, `matches` indexed by `(sid >> stride2) - 2`, flags by the id
+ranges of `Special`) -/
+def answerCertDfaIds (r : Req) : String :=
+  match MatchKind.parse (r.getD "mk" "std"), r.list? "pats" with
+  | some k, some P =>
+    match parseTable r k with
+    | none => "bad-request:dump"
+    | some T =>
+      let B := T.toAut
+      let n := T.states.size
+      let sk : StartKind := match T.startNo, T.startYes with
+        | some _, some _ => .both
+        | some _, none => .unanchored
+        | none, some _ => .anchored
+        | none, none => .both
+      let N := CNfa.compile k (r.flag "fold") P
+      let D := buildDfaIds N sk (r.flag "bc") T.hasPre
+      let A := D.toAut k P T.hasPre
+      let first := r.flag "first"
+      let modes := r.getD "modes" "01"
+      let res := ([false, true].filter fun a => modes.contains (if a then '1' else '0')).map fun anch =>
+        if (A.start anch).isNone && (B.start anch).isNone then (anch, true, "unsupported-by-both")
+        else
+          let f := buildSim A B n anch
+          let ok := certOk A B n anch first f allBytes
+          (anch, ok, if ok then "ok" else certDiag A B n anch first f toString)
+      if res.all (·.2.1) then s!"cert-ok states={n} l1dids_table={D.trans.size} stride2={D.stride2}"
+      else
+        let diags := res.filterMap fun (anch, ok, d) =>
+          if ok then none else some s!"anch={if anch then 1 else 0}:{d}"
+        s!"cert-fail " ++ " | ".intercalate diags
+  | _, _ => "bad-request:certdfai"
 
 /-- `certcontig`: certificate of a dumped contiguous NFA against the word-level transcription
 of its encoder (L1e) applied to the transcribed compiler's NFA: match lists, both anchorings,
@@ -673,12 +763,14 @@ def answerCertContig (r : Req) : String :=
       let N := CNfa.compile k (r.flag "fold") P
       let M := buildContig N (r.natD "dd" 2) (r.flag "bc") T.hasPre
       let A := M.toAut k P T.hasPre
-      let res := [false, true].map fun anch =>
+      let first := r.flag "first"
+      let modes := r.getD "modes" "01"
+      let res := ([false, true].filter fun a => modes.contains (if a then '1' else '0')).map fun anch =>
         let f := buildSim A B n anch
-        let ok := certOk A B n anch false f allBytes
-        (anch, ok, if ok then "ok" else certDiag A B n anch false f toString)
+        let ok := certOk A B n anch first f allBytes
+        (anch, ok, if ok then "ok" else certDiag A B n anch first f toString)
       let f := buildSim A B n false
-      let failsOk := (List.range n).all fun b =>
+      let failsOk := r.getD "failsmode" "" == "off" || (List.range n).all fun b =>
         match f[b]?, T.states[b]? with
         | some (some a), some st =>
           allBytes.all fun c => st.fails.getD c.toNat 0 == (M.nextState false (M.repr.size + 1) a c (0, 0)).2
@@ -741,9 +833,38 @@ def respond (lineNo : Nat) (line : String) : List String :=
     if r.op.startsWith "#" then [] else
     match r.op with
     | "certl1" => [s!"{lineNo} - {answerCert r}"]
+    | "bufcap" =>
+      -- `Buffer::new`: `(max 1 min, capacity)`, through the very definition the stream model uses
+      match r.nums? "mins" with
+      | none => [s!"{lineNo} - bad-request:mins"]
+      | some mins =>
+        let c := constsOf r
+        let caps := mins.map fun m =>
+          let b : Buffer UInt8 := Buffer.new m none c.bufferMinFactor c.bufferDefaultCap
+          s!"{b.min}/{b.cap}"
+        [s!"{lineNo} - caps={",".intercalate caps}"]
+    | "hcap" =>
+      -- decides the hypothesis `hcap` of the stream theorems (`min < cap`, with `min = max 1 maxLen`) for every
+      -- observed `maxLen/min/cap` triple of the real `Buffer::new`
+      let items := (r.getD "obs" "").splitOn ","
+      let bad := items.filterMap fun it =>
+        match it.splitOn "/" with
+        | [a, b, c] =>
+          match a.toNat?, b.toNat?, c.toNat? with
+          | some ml, some mn, some cap =>
+            if mn == max 1 ml && decide (mn < cap) then none else some s!"maxlen={ml} min={mn} cap={cap}"
+          | _, _, _ => some s!"unparsable={it}"
+        | _ => some s!"unparsable={it}"
+      [if bad.isEmpty then s!"{lineNo} - ok n={items.length}" else s!"{lineNo} - hcap-fails {" ".intercalate (bad.take 6)}"]
+    | "streamself" =>
+      -- stream = in-memory on the same searcher: C07_stream_eq_iter / C08_replace_eq, whose only
+      -- side condition (capacity > longest pattern) is what `bufcap` observes
+      (cfgsOf r).map fun c => s!"{lineNo} {c.name} same"
     | "certpair" => [s!"{lineNo} - {answerCertPair r}"]
     | "certl1c" => [s!"{lineNo} - {answerCertL1c r}"]
+    | "certnci" => [s!"{lineNo} - {answerCertNcIds r}"]
     | "certdfa" => [s!"{lineNo} - {answerCertDfa r}"]
+    | "certdfai" => [s!"{lineNo} - {answerCertDfaIds r}"]
     | "certcontig" => [s!"{lineNo} - {answerCertContig r}"]
     | "presound" => [s!"{lineNo} - {answerPreSound r}"]
     | "packed" => ((r.getD "pcfg" "default").splitOn ";").map fun v => s!"{lineNo} {v} {answerPacked r v}"
